@@ -49,7 +49,9 @@ func Steady(rec *Rec, id, fsname, dir string, rounds, nkeys int, seed int64) int
 	for r := 1; r <= rounds; r++ {
 		for i := 0; i < 2*nkeys; i++ {
 			k := fmt.Sprintf("s%03d", rng.Intn(nkeys))
-			if rng.Intn(4) == 0 {
+			// (half of the runs never delete: a delete record makes compaction take every older segment
+			// along, which hides segments that are never picked on their own account)
+			if (seed/3)%2 == 0 && rng.Intn(4) == 0 {
 				if s.Do(Op{Op: "del", K: k}) != nil {
 					return n
 				}
@@ -63,15 +65,39 @@ func Steady(rec *Rec, id, fsname, dir string, rounds, nkeys int, seed int64) int
 			}
 			n++
 		}
-		if s.Do(Op{Op: "compact"}) != nil {
-			return n
-		}
-		if r%5 == 0 {
+		// three round shapes (by seed): compact then restart every 5th round; restart BEFORE the compaction in
+		// every round (the garbage of a session is only seen by the next one); compaction every 3rd round only
+		restart := func() bool {
 			if s.Do(Op{Op: "close"}) != nil {
+				return false
+			}
+			return s.Open() == nil
+		}
+		switch seed % 3 {
+		case 0:
+			if s.Do(Op{Op: "compact"}) != nil {
 				return n
 			}
-			if s.Open() != nil {
+			if r%5 == 0 && !restart() {
 				return n
+			}
+		case 1:
+			if !restart() {
+				return n
+			}
+			if s.Do(Op{Op: "compact"}) != nil {
+				return n
+			}
+		default:
+			if r%2 == 0 && !restart() {
+				return n
+			}
+			if r%3 == 0 {
+				if s.Do(Op{Op: "compact"}) != nil {
+					return n
+				}
+			} else {
+				continue // resources are judged after a compaction
 			}
 		}
 		files, bytes, segs := 0, int64(0), 0
